@@ -36,6 +36,22 @@ MODEL = "model m box a { leaf x; leaf y -> x; box b { leaf z -> y; } } leaf w;"
 TARGETS = [('textX', 'dot', 'g.dot'), ('any', 'dot', 'm.dot'), ('textX', 'PlantUML', 'g.pu')]
 
 
+class InjectedOS(OSError):
+    pass
+
+
+class InjectedRT(RuntimeError):
+    """a failure that is not an I/O error (a bug in the generator, a bad model value)"""
+
+
+class InjectedKI(KeyboardInterrupt):
+    """not even an Exception: the user interrupts the generator"""
+
+
+EXC = [InjectedOS, InjectedRT, InjectedKI]
+INJECTED = (OSError, InjectedRT, InjectedKI)
+
+
 class FaultyRaw(io.RawIOBase):
     """raw (OS-level) stream under the real buffered text file object: the
     i-th write() / close() system call fails when the hook says so — the level
@@ -135,11 +151,13 @@ def explore(item):
                 # the condition persists (a full disk stays full): later writes
                 # of the same run fail too, e.g. the flush retried on close
                 if op == 'write':
-                    raise OSError('injected fault persists at %s #%d' % (op, i))
+                    raise InjectedOS('injected fault persists at %s #%d' % (op, i))
                 return
             if c.branch(z3.Bool('fail_%d' % i)):
-                fired.append((i, op))
-                raise OSError('injected fault at %s #%d' % (op, i))
+                # what kind of failure: an I/O error, another exception, an interrupt
+                k = 0 if c.branch(z3.Bool('io_error')) else (1 if c.branch(z3.Bool('other_exception')) else 2)
+                fired.append((i, op, k))
+                raise EXC[k]('injected fault at %s #%d' % (op, i))
         try:
             # scenario selector: generate into an empty directory, or regenerate
             # with overwrite over a complete file from an earlier run
@@ -150,7 +168,7 @@ def explore(item):
             try:
                 out = run_generator(ti, d, hook, overwrite=regen)
                 failed = False
-            except OSError:
+            except INJECTED:
                 failed = True
                 out = os.path.join(d, TARGETS[ti][2])
             if not failed:
@@ -204,7 +222,7 @@ def _rmtree(d):
         pass
 
 
-def replay_fault(ti, index, regenerate=False, small_buffers=True):
+def replay_fault(ti, index, regenerate=False, small_buffers=True, kind=0):
     SMALL_BUFFERS[0] = small_buffers
     d = tempfile.mkdtemp(prefix='c31r_')
     n = [0]
@@ -214,8 +232,10 @@ def replay_fault(ti, index, regenerate=False, small_buffers=True):
     def hook(op):
         i = n[0]
         n[0] += 1
-        if i == index or (i > index and op == 'write'):
-            raise OSError('injected fault')
+        if i == index:
+            raise EXC[kind]('injected fault')
+        if i > index and op == 'write':
+            raise InjectedOS('injected fault persists')
     try:
         try:
             out = run_generator(ti, d, hook, overwrite=regenerate)
@@ -234,7 +254,7 @@ def replay_fault(ti, index, regenerate=False, small_buffers=True):
             if _norm(got) != _norm(ref):
                 return True, 'success reported although a write failed: %d of %d bytes on disk' % (len(got), len(ref))
             return False, 'complete file'
-        except OSError:
+        except INJECTED:
             pass
         out = os.path.join(d, TARGETS[ti][2])
         if os.path.exists(out):
@@ -251,7 +271,7 @@ def main():
     results = pmap(explore, [(i,) for i in range(len(TARGETS))])
     chk.cov['functions_encoded'] = src_hash(G.gen_file, G.metamodel_generate_dot, G.model_generate_dot,
                                             G.metamodel_generate_plantuml, E.metamodel_export, E.model_export)
-    chk.cov['bounds'] = {'generators': ['%s->%s' % t[:2] for t in TARGETS], 'fault_kinds': ['write', 'flush', 'close'],
+    chk.cov['bounds'] = {'generators': ['%s->%s' % t[:2] for t in TARGETS], 'fault_kinds': ['raw write', 'raw close'], 'exception_kinds': ['OSError', 'RuntimeError', 'KeyboardInterrupt'],
                          'one_fault_per_run': True}
     chk.cov['stubs'] = ['builtins.open wrapped for the output file only (fault-injecting file object)']
     chk.cov['outside_claim'] = ['faults in open() itself, several faults per run, other generators']
@@ -272,13 +292,14 @@ def main():
             elif not reported:
                 reported = True
                 ti = [i for i, t in enumerate(TARGETS) if '%s->%s' % t[:2] == r['target']][0]
-                bad, detail = replay_fault(ti, d['fault'][0], d.get('regenerate', False), d.get('small_buffers', True))
+                kind_ = d['fault'][2] if len(d['fault']) > 2 else 0
+                bad, detail = replay_fault(ti, d['fault'][0], d.get('regenerate', False), d.get('small_buffers', True), kind_)
                 chk.cov['traces_validated_against_impl'] += 1
                 if bad or kind == 'incomplete':
                     chk.violation('%s: injected failure at %s #%d: %s (%d of %d bytes)' % (
                         r['target'], d['fault'][1], d['fault'][0], kind, d['size'], d['full']),
                         {'target_index': ti, 'fault_index': d['fault'][0], 'regenerate': d.get('regenerate', False),
-                         'small_buffers': d.get('small_buffers', True)})
+                         'small_buffers': d.get('small_buffers', True), 'exception_kind': kind_})
         chk.sample({'generator': r['target'], 'fault_points': r['fault_points'], 'clean_after_fault': r['ok'],
                     'file_left_or_incomplete': len(r['bad'])})
     chk.cov['paths_explored'] = paths
@@ -291,4 +312,4 @@ def main():
 
 def replay(data):
     return replay_fault(data['target_index'], data['fault_index'], data.get('regenerate', False),
-                        data.get('small_buffers', True))
+                        data.get('small_buffers', True), data.get('exception_kind', 0))
